@@ -150,6 +150,61 @@ def gate_classifier(found, param=1, var='gate'):
     return classify
 
 
+def emptiness_atom(specs):
+    """bool_atom for `X.is_empty()` / `X.len() == 0` where X is one of the operands in specs = {name: (param, path prefix)}
+    (a longer path under the prefix is that operand's content as well: `other.inner.is_empty()`, `other.inner.dots.is_empty()`)."""
+    def which(x):
+        pp = param_path(versionless(x))
+        if pp is None:
+            return None
+        for name, (prm, pre) in specs.items():
+            if pp[0] == prm and tuple(pp[1][:len(pre)]) == tuple(pre):
+                return name
+        return None
+
+    def atom(t):
+        if is_call(t, 'is_empty') and len(t[2]) == 1:
+            return which(t[2][0])
+        if t[0] == 'binop' and t[1] in ('Eq', 'Ne'):
+            for a, b in ((t[2], t[3]), (t[3], t[2])):
+                a, b = drop_lv(a), drop_lv(b)
+                if b[0] == 'const' and b[1] == 0 and is_call(a, 'len') and len(a[2]) == 1 and which(a[2][0]):
+                    return which(a[2][0]) if t[1] == 'Eq' else ('not', which(a[2][0]))
+        return None
+    return atom
+
+
+def must_pass_unless_noop(facts, body, it, sites, noop_when_empty, start=0):
+    """Every path passes one of `sites` — except paths that are only taken when an operand whose emptiness makes the whole
+    operation a no-op is empty (`if other.is_empty() { return }` in front of a merge, `if clock.is_empty() { return }` in front of a
+    reset) and that leave self untouched.  noop_when_empty = {name: (param, path prefix)}."""
+    from ..ordset import Reach, Evaluator
+    rc0 = Reach(facts, body, Evaluator(facts))
+    if sites and rc0.must_pass(sites):
+        return True
+    if not sites or not noop_when_empty:
+        return False
+    atom = emptiness_atom(noop_when_empty)
+    ev = Evaluator(facts, bool_atom=atom, assumption={n: False for n in noop_when_empty})
+    rc = Reach(facts, body, ev)
+    if not rc.must_pass(sites) or not ev.hits:
+        return False
+    # the paths that skip the sites exist only in worlds where some such operand is empty; they must not touch self
+    for n in noop_when_empty:
+        rcw = Reach(facts, body, Evaluator(facts, bool_atom=atom, assumption={n: True}))
+        skipping = rcw._reach(0, set(sites))
+        if not any(body.blocks[b]['term']['k'] == 'return' for b in skipping):
+            continue
+        for (bb, _i), w in list(it.muts.items()) + list(it.writes.items()):
+            if bb in skipping and w.loc[0][0] in ('P', 'O'):
+                tgt = loc_target(it, w.loc)
+                if tgt is not None and tgt[0] == 1:
+                    # .. unless the write is itself on a path that still reaches a site
+                    if any(r_ in rcw._reach(bb, set(sites)) for r_ in rcw.return_blocks()):
+                        return False
+    return True
+
+
 def err_verdict_escapes(facts, body, it, call_bbs, base_atom=None, assumption=None, frame=None):
     """The calls ending the blocks `call_bbs` return a Result (a validation verdict).  Assume that verdict is Err: every value
     the function can then return must be an Err (the verdict itself, possibly through `?` / map_err / and_then / map / a local,
